@@ -53,6 +53,12 @@ type clientStream struct {
 
 	teardown func(bool)
 
+	// sendMu serialises the caller's writes (SendMsg, CloseSend) with the reset
+	// written on teardown, so that the reset is the last envelope the client
+	// emits for the stream. It protects resetSent.
+	sendMu    sync.Mutex
+	resetSent bool
+
 	rCh chan *goatorepo.Body
 }
 
@@ -85,6 +91,11 @@ func NewStream(
 	}
 
 	cs.teardown = func(sendRst bool) {
+		// Unregister first: that releases a multiplexer read loop blocked on
+		// this stream's queue (and with it the multiplexer's mutex, which a
+		// send in progress may be waiting for while it holds sendMu below).
+		teardown()
+
 		if sendRst {
 			rpc := goatorepo.Rpc{
 				Id: id,
@@ -101,14 +112,18 @@ func NewStream(
 			writeCtx, cancelWrite := context.WithDeadline(context.Background(),
 				time.Now().Add(30*time.Second))
 			defer cancelWrite()
+			// A send in progress is bound to the stream context, which has ended
+			// (that is why we reset), so this does not wait long.
+			cs.sendMu.Lock()
+			cs.resetSent = true
 			err := rw.Write(writeCtx, &rpc)
+			cs.sendMu.Unlock()
 			if err != nil {
 				log.Err(err).Str("method", method).
 					Msg("Failed to send RST_STREAM message on teardown")
 			}
 		}
 
-		teardown()
 		cancel()
 	}
 
@@ -174,7 +189,14 @@ func (cs *clientStream) CloseSend() error {
 		})
 	}
 
-	err := cs.rw.Write(cs.ctx, &tr)
+	var err error
+	cs.sendMu.Lock()
+	if cs.resetSent {
+		err = cs.ctx.Err() // nothing may follow the reset
+	} else {
+		err = cs.rw.Write(cs.ctx, &tr)
+	}
+	cs.sendMu.Unlock()
 	if err != nil {
 		// The write is bound to the stream's context, which is cancelled as
 		// soon as the stream ends. Half-closing a stream that has already
@@ -231,7 +253,13 @@ func (cs *clientStream) SendMsg(m interface{}) error {
 			Data: body.Materialize(),
 		},
 	}
-	err = cs.rw.Write(cs.ctx, &rpc)
+	cs.sendMu.Lock()
+	if cs.resetSent {
+		err = cs.ctx.Err() // nothing may follow the reset
+	} else {
+		err = cs.rw.Write(cs.ctx, &rpc)
+	}
+	cs.sendMu.Unlock()
 	if err != nil {
 		// The stream may have ended between the check above and the write
 		// (its context is cancelled on teardown): report its outcome, as the
